@@ -1117,7 +1117,9 @@ def _replace(string: str, replace_vars: Dict[str, str], default: Optional[str] =
         var_expr = match.string[slice(*match.span())]
         replacement = replace_vars.get(var)
         if replacement is None:
-            replacement = var_expr if default is None else default  # Default replacements
+            if default is None:
+                continue  # Unknown variables are left exactly as they are
+            replacement = default  # Default replacements
         else:
             replacement = _replace(str(replacement), replace_vars, default)  # Nested replacements
 
